@@ -10,6 +10,7 @@ pub fn check_case<C>(
     oracle: &dyn Fn(&C) -> Option<(String, String)>,
     witness: &dyn Fn(&C) -> Value,
     on_case: &dyn Fn(&C, &Src),
+    params: Value,
 ) -> bool {
     let c = gen(&mut src);
     on_case(&c, &src);
@@ -25,6 +26,6 @@ pub fn check_case<C>(
     let (cls3, detail) = oracle(&c3).unwrap_or((cls.clone(), "(shrunk case no longer fails)".into()));
     let labels = s3.label_set();
     let sig = format!("{}|{}|{}|{}", prop, prefix, labels, cls3);
-    run.violation(&sig, &detail, json!({"tape": small, "labels": labels, "case": witness(&c3)}));
+    run.violation(&sig, &detail, json!({"tape": small, "labels": labels, "case": witness(&c3), "params": params}));
     false
 }
